@@ -217,6 +217,19 @@ def run_factors(ctx):
                     ctx.evaluations += 1
                     if not (f == f2) or (f != f2):
                         ctx.fail('factor equality is not by domains and dense weights', dict(domains=list(dsh), rep=rname), False, True, tags=['factor-eq'])
+                    # the same domains given as a tuple, a list, an iterator-free sequence: equal factors; and the factor does not alias
+                    # the caller's list (mutating the list afterwards changes neither the factor's domains nor its arity)
+                    caller_list = list(doms)
+                    f_list, f_tuple = FiniteFactor(caller_list, dense.clone()), FiniteFactor(tuple(doms), dense.clone())
+                    if not (f_list == f_tuple) or not (f_tuple == f_list) or (f_list != f_tuple):
+                        ctx.fail('factors over equal domains given as a list and as a tuple compare unequal', dict(domains=list(dsh), rep=rname), False, True,
+                                 tags=['factor-eq', 'list-vs-tuple'])
+                    before_doms, before_arity = tuple(f_list.domains), f_list.arity
+                    caller_list.append(caller_list[0] if caller_list else None)
+                    if caller_list: caller_list.pop(0)
+                    if tuple(f_list.domains) != before_doms or f_list.arity != before_arity:
+                        ctx.fail('a FiniteFactor aliases the list of domains it was given: mutating the list changed the factor', dict(domains=list(dsh), rep=rname),
+                                 [str(d) for d in f_list.domains], [str(d) for d in before_doms], tags=['factor-alias'])
                     if numel:
                         d3 = dense.clone().contiguous(); d3.view(-1)[0] = 123.0
                         f3 = FiniteFactor(list(doms), d3)
